@@ -20,7 +20,9 @@ EXPLANATION = (
     "coordinates are set to NaN and the value to 0 under one and the same mask `value < threshold`, both stores dominating the "
     "return; (valid) in find_global_peaks one index set (the non-NaN rough peaks of the (samples*channels)-flattened list) "
     "selects the peaks that are boxed, the maps that are cropped (maps flattened the same way) and the rows that receive "
-    "the offsets; refinement works on a clone; offsets are (dx, dy) on the centred patch grid. Not decided: refinement bounds "
+    "the offsets; refinement works on a clone; offsets are (dx, dy) on the centred patch grid; the crop is reached only through a "
+    "test that quantifies over isnan(rough peaks), and (exist) no whole-batch early return is taken because SOME peak is NaN "
+    "(the valid peaks of the batch would stay unrefined). Not decided: refinement bounds "
     "and that refinement 'helps'."
 )
 TRUSTED = ["CPython ast", "networkx reachability", "torch.max(x, dim) returns (values, indices) of one consistent maximal element per slice"]
@@ -289,8 +291,13 @@ def check_valid(prog: Program, res: Result) -> None:
     tests_ = set()
     for t_ in walk_function(fn):
         if isinstance(t_, ast.If):
-            tt_ = norm(astq.expand_at(fn, t_.test, t_))
-            if "isnan(" in tt_ and (".all()" in tt_ or ".any()" in tt_):     # isnan(x).all()  /  not (~isnan(x)).any()  (the quantifier itself: C12-exist)
+            te_ = astq.expand_at(fn, t_.test, t_)
+            # isnan(x).all() / torch.all(isnan(x)) / not (~isnan(x)).any() / the emptiness of where(~isnan(x))  (the quantifier itself: C12-exist)
+            quant_ = any(isinstance(c_, ast.Call) and "isnan(" in norm(c_) and (
+                (isinstance(c_.func, ast.Attribute) and c_.func.attr in ("all", "any", "numel", "nelement", "size")) or norm(c_.func) in ("all", "any", "len"))
+                for c_ in ast.walk(te_))
+            quant_ = quant_ or any(isinstance(a_, ast.Attribute) and a_.attr == "shape" and "isnan(" in norm(a_.value) for a_ in ast.walk(te_))
+            if quant_:
                 tests_ |= set(cfg_.nodes_of(t_))
     for c_ in crops_:
         w_ = cfg_.must_pass([cfg_.entry], cfg_.stmt_nodes_containing(c_), tests_)
@@ -304,6 +311,8 @@ def check_valid(prog: Program, res: Result) -> None:
         el = r.value.elts if isinstance(r.value, ast.Tuple) else []
         ok = len(el) == 2 and norm(el[1]) == vals
         first = norm(el[0]) if ok else "?"
+        if ok and first != rough and T(astq.expand_at(fn, el[0], r)) in {f"{f}.{m_}({S_},{C_},2)" for f in flat_forms for m_ in ("reshape", "view")}:
+            first = rough      # the flattened rough peaks folded back to (samples, channels, 2): the rough result itself
         if ok and first != rough:
             n_ref += 1
             fx = T(astq.expand_at(fn, el[0], r))
@@ -332,7 +341,8 @@ def check(prog: Program, res: Result) -> None:
     check_joint(prog, res)
     check_mask(prog, res)
     check_valid(prog, res)
-    from . import _wire
+    from . import _wire, c12
+    res.borrow(c12.check_exist, "C07-exist", prog)   # refinement skipped for the batch because SOME peak is NaN: the valid peaks stay unrefined
     _wire.check_peak_wiring(prog, res, "C07-wire")
     _wire.check_numeric_hygiene(prog, res, "C07-wire")
     res.assumptions.append("refinement bounds (half a patch) and 'refinement helps' are numerical and not decided")
